@@ -88,6 +88,7 @@ Definition bmismatch (c : bcase) : option (Z * Z) :=
   let '(id, st, fee, ok, pre, post) := c in
   let '(s', ok') := bdeliver pre fee st in
   if negb (Bool.eqb ok ok') then Some (id, 1)
+  else if negb (bridge_inv_b pre && bridge_inv_b post) then Some (id, 8)   (* premise of C05_history_order_independent *)
   else let d := bridge_diff s' post in if d =? 0 then None else Some (id, d).
 
 Definition check_all {A} (d : dec A) (f : A -> option (Z * Z)) (raw : list (list int)) : list (Z * Z) :=
